@@ -950,6 +950,44 @@ def _temp_collision_failures():
     return fails, n
 
 
+def _nested_j_failures():
+    """Bounded: -j is respected below a redo that is given its own -j, on the real binaries.  `redo -j4 all`, all.do runs
+    `redo -jK sub` (K = 1, 2), sub.do asks for four leaves that each work for 0.5 s and log start / end: never more than K
+    leaves at work at once; and with no -j on the inner redo all four may (and, tokens being free, at least two do) overlap.
+    -> (failures, n) or None"""
+    bindir = build_redo_bin()
+    if not bindir:
+        return None
+    env = {k: v for k, v in os.environ.items() if not k.startswith('REDO') and k != 'MAKEFLAGS'}
+    env['PATH'] = bindir + ':' + env.get('PATH', '')
+    work = tempfile.mkdtemp(prefix='redo-verif-nj.', dir='/var/tmp')
+    fails, n = [], 0
+    try:
+        for inner in ('-j1', '-j2', ''):
+            n += 1
+            proj = os.path.join(work, 'p%d' % n)
+            os.makedirs(proj)
+            open(os.path.join(proj, 'all.do'), 'w').write('redo %s sub\n' % inner)
+            open(os.path.join(proj, 'sub.do'), 'w').write('redo-ifchange l1.leaf l2.leaf l3.leaf l4.leaf\n')
+            open(os.path.join(proj, 'default.leaf.do'), 'w').write('echo "s $1" >>%s/trace\nsleep 0.5\necho "e $1" >>%s/trace\n' % (proj, proj))
+            r = subprocess.run(['redo', '--no-log', '-j4', 'all'], cwd=proj, env=env, capture_output=True, text=True, timeout=120)
+            cur = mx = 0
+            for l in (open(os.path.join(proj, 'trace')).read().split('\n') if os.path.exists(os.path.join(proj, 'trace')) else []):
+                if l.startswith('s '):
+                    cur += 1
+                    mx = max(mx, cur)
+                elif l.startswith('e '):
+                    cur -= 1
+            hist = 'redo -j4 all; all.do = "redo %s sub"; sub.do asks for four leaves of 0.5 s each' % inner
+            limit = {'-j1': 1, '-j2': 2, '': 4}[inner]
+            if r.returncode != 0 or mx > limit or (inner == '' and mx < 2):
+                fails.append(dict(input=hist, observed='exit %d, at most %d leaves at work at once (limit %d)%s' % (r.returncode, mx, limit, '; ' + r.stderr.strip()[-160:] if r.returncode else ''),
+                                  clause='the number of scripts at work below a redo with its own -j never exceeds that -j; without one the enclosing jobserver is joined'))
+    finally:
+        shutil.rmtree(work, ignore_errors=True)
+    return fails, n
+
+
 def _corpus_failures(prop):
     """Bounded: the demonstration scripts of the seeded changes kept for this property (seeded/<id>/demo/demo.sh, listed in
     seeded/corpus.json with the clause each one checks).  Each is a concrete history with the real binaries that exits 0
@@ -1061,6 +1099,13 @@ def conformance(prop, unit_names, pins_changed, labels_props):
             out.append(dict(oid='gluebins/stamp_digest/stamp.digest_covers_the_whole_input', msg='clause fails on the real binaries for a concrete input (bounded probe stamp-pipe, %d inputs)' % r[1],
                             where=REPO + '/src/bin/redo/stamp.rs:run', site=None, text=hits[0]['clause'], rendered=json.dumps(hits[:6], indent=1),
                             inputs=[h['input'] for h in hits], fn='stamp_digest', label='stamp.digest_covers_the_whole_input', props=[prop]))
+    if ('tokens' in unit_names or 'gluebins' in unit_names) and prop == 'C08':
+        r = _nested_j_failures()
+        if r and r[0]:
+            hits = r[0]
+            out.append(dict(oid='tokens/setup_token_fds/setup.explicit_j_means_own_jobserver', msg='clause fails on the real binaries for a concrete history (bounded probe nested-j, %d histories)' % r[1],
+                            where=REPO + '/src/jobserver.rs:setup', site=None, text=hits[0]['clause'], rendered=json.dumps(hits[:6], indent=1), inputs=[h['input'] for h in hits],
+                            fn='setup_token_fds', label='setup.explicit_j_means_own_jobserver', props=['C08']))
     if 'tokens' in unit_names and prop == 'C08':
         r = _cheatpipe_failures()
         if r and r[0]:
@@ -1203,6 +1248,7 @@ def bounded(prop, unit_names, labels_props):
                           lambda h: (h.get('prop') == 'C06') == (prop in ('C06', 'C07'))))
         if prop == 'C08':
             extra.append(('cheatpipe', _cheatpipe_failures, 'tokens/setup_cheat_fds/setup.own_jobserver_owns_its_debts', lambda h: True))
+            extra.append(('nested-j', _nested_j_failures, 'tokens/setup_token_fds/setup.explicit_j_means_own_jobserver', lambda h: True))
             extra.append(('conserve', _conserve_failures, 'tokens/do_force_return_tokens/exit.one_token', lambda h: True))
         if prop == 'C14':
             extra.append(('ifcreate-args', _ifcreate_args_failures, 'gluebins/ifcreate_record/ifcreate.existing_path_is_error', lambda h: True))
